@@ -58,6 +58,12 @@ Definition raw_parts_val (r : eptr * Z * Z) : val :=
 Definition opt_elem_val (o : option elem) : val :=
   match o with Some e => VCtor "Some" [VInt e] | None => VCtor "None" [] end.
 
+(* a script of answers (the user's iterator of `extend`) as a value, and back *)
+Definition ints_of (vs : list val) : list Z :=
+  flat_map (fun x => match x with VInt e => [e] | _ => [] end) vs.
+Lemma ints_of_map (sc : list Z) : ints_of (map VInt sc) = sc.
+Proof. induction sc as [|a sc IH]; [reflexivity|]. unfold ints_of in *. cbn. rewrite IH. reflexivity. Qed.
+
 (* the arguments of a constructor value of a given name *)
 Definition ctor_is (c : string) (v : val) : option (list val) :=
   match v with
@@ -517,19 +523,29 @@ Section Prims.
       match args with [x] => k x s | _ => stuck f s end
     else if is "for:next" || is ".next" then
       match args with
-      | [x] => match ctor_is "Slice" x, ctor_is "Iter" x with
+      | [x] => match ctor_is "Script" x with
+               | Some vs =>
+                   (* the user's iterator: one answer of the script (Machine.iter_next) *)
+                   lift_k (iter_next (ints_of vs)) (fun r => opt_elem_val (fst r)) s k
+               | None =>
+               match ctor_is "Slice" x, ctor_is "Iter" x with
                | Some (v :: _), _ => if is "for:next" then k (VCtor "Some" [v]) s else stuck f s
                | Some [], _ => if is "for:next" then k (VCtor "None" []) s else stuck f s
                | None, Some [VObj i] => lift_k (drain_next_at cfg i) opt_elem_val s k
                | _, _ => stuck f s
                end
+               end
       | _ => stuck f s
       end
     else if is "for:rest" then
       match args with
-      | [x] => match ctor_is "Slice" x with
+      | [x] => match ctor_is "Script" x with
+               | Some vs => k (VCtor "Script" (map VInt (snd (pop_script (ints_of vs) A_N)))) s
+               | None =>
+               match ctor_is "Slice" x with
                | Some (_ :: vs) => k (VCtor "Slice" vs) s
                | _ => k x s
+               end
                end
       | _ => stuck f s
       end
